@@ -42,6 +42,7 @@ def leaves(kind, icls=None):
             "interval": (t.a, t.b > T.Interval(days=3)),
             # an interval constructed FOR the dialect of the class its part is built with: the rendering dialect decides, not the argument
             "interval-dialect-arg": (t.a + T.Interval(hours=2, minutes=5, dialect=idial), t.b > T.Interval(days=3, dialect=idial)),
+            "array-with-term": (T.Array(t.a, 1), t.b == T.Array(t.c, fn.Lower(t.d), 2)),
             "interval-function-arg": (fn.Coalesce(T.Function("DATE_ADD", t.a, T.Interval(hours=2, minutes=5)), t.c), T.Function("DATE_SUB", t.b, T.Interval(days=3)) > t.d),
             "json": (T.JSON({"k": "v"}), t.b.contains({"a": 1}) if hasattr(t.b, "contains") else t.b == 1),
             "boolean-criterion": (t.a, t.b == True),  # noqa: E712
@@ -50,7 +51,7 @@ def leaves(kind, icls=None):
     return f
 
 
-LEAF_KINDS = ["identifier", "string-backslash", "array", "interval", "interval-dialect-arg", "interval-function-arg", "json", "boolean-criterion", "number"]
+LEAF_KINDS = ["identifier", "string-backslash", "array", "interval", "interval-dialect-arg", "interval-function-arg", "array-with-term", "json", "boolean-criterion", "number"]
 
 
 def inner_select(icls, kind, n="i"):
@@ -188,6 +189,28 @@ def cases(run, rng):
                     if sg.count("INTERVAL") != sum(sg.count(e) for e in set(exp)):
                         FAIL.append({"kind": "an interval inside the statement is not written in the statement's dialect form", "class": QNAMES[D], "construct": cname, "leaf": kind,
                                      "depth": depth, "mode": "inline", "with_generic_inner": sg, "with_dialect_inner": " / ".join(exp)})
+    # ---- (C') arrays: every array of the statement is written in the statement's array form, inline and parameterised
+    for D in QUERY_CLASSES:
+        pg = D.SQL_CONTEXT.dialect.name in ("POSTGRESQL", "REDSHIFT")
+        for kind in ("array", "array-with-term"):
+            n_arrays = 1 if kind == "array" else 2
+            for depth in (1, 2):
+                for cname, f in constructs(D, P.Query, depth, kind).items():
+                    for param in (False, True):
+                        try:
+                            sg, vals = render(f(), D, param)
+                        except Exception:
+                            continue
+                        if sg.startswith("EXC"):
+                            continue
+                        one_param = kind == "array" and param          # an array of plain constants may be ONE parameter
+                        SEEN[0] += 1
+                        opened = sg.count("ARRAY[") if pg else sg.count("[") - sg.count("ARRAY[")
+                        other = sg.count("[") - sg.count("ARRAY[") if pg else sg.count("ARRAY[")
+                        if other or (opened == 0 and not one_param):
+                            FAIL.append({"kind": "an array inside the statement is not written in the statement's dialect form", "class": QNAMES[D], "construct": cname,
+                                         "leaf": kind, "depth": depth, "mode": "param" if param else "inline", "with_generic_inner": sg,
+                                         "with_dialect_inner": "%d x %s" % (n_arrays, "ARRAY[..]" if pg else "[..]")})
     # ---- (A') one shared generic part rendered through two classes in turn: the second rendering must not remember the first dialect
     for D1, D2 in itertools.permutations(QUERY_CLASSES, 2):
         for kind in LEAF_KINDS:
